@@ -14,7 +14,9 @@ from armulator.armv6.address_descriptor import AddressDescriptor
 from armulator.armv6.memory_controller_hub import MemoryControllerHub
 
 SIZES = (1, 2, 4, 8)
-ANCHORS = [0, 0x10, 0x40, 0x1000, 0x7FFFFFE0, 0xFFFFFFC0, 0xFFFFFFF0]
+# physical addresses are 40 bits wide (supersection / LPAE output addresses): devices below, across and above 4 GiB
+ANCHORS = [0, 0x10, 0x40, 0x1000, 0x7FFFFFE0, 0xFFFFFFC0, 0xFFFFFFF0, 1 << 32, (1 << 32) + 0x40, 0xFF_FFFF_FFC0, 0x12_0000_0000]
+PA_MASK = (1 << 40) - 1
 layout_st = st.lists(st.tuples(st.sampled_from(ANCHORS), st.integers(0, 0x24), st.integers(1, 70)), min_size=1, max_size=5)
 
 
@@ -28,8 +30,8 @@ class Model:
     def __init__(self, lay):
         self.devs = []
         for anchor, off, size in lay:
-            b = (anchor + off) & 0xFFFFFFFF
-            e = min(b + size, 1 << 32)
+            b = (anchor + off) & PA_MASK
+            e = min(b + size, 1 << 40)
             self.devs.append((b, e, bytearray(e - b)))
 
     def find(self, a):
@@ -125,15 +127,15 @@ def make_machine(acc):
             pts = set()
             for b, e, _ in self.model.devs:
                 for d in range(-9, 3):
-                    pts.add((b + d) & 0xFFFFFFFF)
-                    pts.add((e + d) & 0xFFFFFFFF)
-            pts |= {0, 0xFFFFFFFF, 0xFFFFFFF8, 1 << 32, (1 << 32) + 4, 0x80000000}
+                    pts.add((b + d) & PA_MASK)
+                    pts.add((e + d) & PA_MASK)
+            pts |= {0, 0xFFFFFFFF, 0xFFFFFFF8, 1 << 32, (1 << 32) + 4, 0x80000000, PA_MASK, PA_MASK - 7}
             self.addrs = sorted(pts)
             CURRENT['case'] = {'layout': self.lay, 'ops': self.hist}
 
         def _addr(self, data):
             if data.draw(st.integers(0, 9)) == 0:
-                return data.draw(st.integers(0, 0xFFFFFFFF))
+                return data.draw(st.integers(0, PA_MASK))
             return data.draw(st.sampled_from(self.addrs))
 
         @rule(data=st.data(), size=st.sampled_from(SIZES), value=st.integers(0, 2 ** 64 - 1))
@@ -237,14 +239,15 @@ def shard_sweep(idx):
         [(0, 0, 1)], [(0, 0, 3)], [(0x10, 0, 7), (0x10, 7, 9)], [(0x40, 0, 16), (0x40, 8, 16)],
         [(0xFFFFFFF0, 0, 16)], [(0xFFFFFFF0, 3, 13)], [(0x1000, 0, 64), (0x1000, 70, 5), (0x1000, 0, 8)],
         [(0x7FFFFFE0, 1, 2), (0x7FFFFFE0, 3, 2), (0x7FFFFFE0, 5, 33)],
+        [(0xFFFFFFF0, 0, 32)], [(1 << 32, 0, 16), (0x12_0000_0000, 3, 9)],            # straddling / above 4 GiB
     ]
     lay = layouts[idx]
     model0 = Model(lay)
     pts = set()
     for b, e, _ in model0.devs:
         for d in range(-9, 10):
-            pts.add((b + d) & 0xFFFFFFFF)
-            pts.add((e + d) & 0xFFFFFFFF)
+            pts.add((b + d) & PA_MASK)
+            pts.add((e + d) & PA_MASK)
     for a in sorted(pts):
         for size in SIZES:
             for kind in ('r', 'w'):
@@ -318,17 +321,17 @@ def shard_edge_steps(seed, count):
 
 def run(ctx):
     ctx.rule = ('Hypothesis RuleBasedStateMachine: layout of 1-5 RAM devices (sizes 1..70 incl. odd, adjacent/gapped/overlapping, up to '
-                'the last bytes below 2^32) then <=N reads/writes of size 1/2/4/8 at addresses drawn from device boundaries +-9, '
+                'the last bytes below 2^32, and above 4 GiB up to the top of the 40-bit physical space) then <=N reads/writes of size 1/2/4/8 at addresses drawn from device boundaries +-9, '
                 'unmapped gaps, >2^32 and random; oracle = per-device byte arrays + first-match rule, checked after every step '
                 '(device lengths, every byte, read values, no host exception). Plus a deterministic sweep of every address around '
-                'every boundary of 8 fixed layouts, and emulate_cycle() steps whose fetch / data access lies at the last bytes of a device. Non-trivial history: contains an access within 8 bytes of a device end or >=2 '
+                'every boundary of 10 fixed layouts, and emulate_cycle() steps whose fetch / data access lies at the last bytes of a device. Non-trivial history: contains an access within 8 bytes of a device end or >=2 '
                 'touching/overlapping devices; distinct = distinct (layout, op sequence).')
     ctx.technique = 'stateful model-based property testing (Hypothesis rule-based machine) against an in-memory byte model'
     ctx.assumptions = ['RAM devices only (the only MemoryType shipped)', 'values written are in range for their size (all callers mask)']
     ex = ctx.n(250, 6000)
     steps = ctx.n(40, 60)
     tasks = [(shard_machine, (ctx.shard_seed(i), ex, steps, not ctx.quick)) for i in range(16)]
-    tasks += [(shard_sweep, (i,)) for i in range(8)]
+    tasks += [(shard_sweep, (i,)) for i in range(10)]
     tasks += [(shard_edge_steps, (ctx.shard_seed(50 + i), ctx.n(400, 8000))) for i in range(4)]
     ctx.pmap(_dispatch, tasks)
 
